@@ -173,6 +173,8 @@ def check_case(case):
                 dis.append({"clause": "Raises", "detail": "parse of %r raised %s: %s" % (doc, type(ex_).__name__, str(ex_)[:60])})
                 continue
             rects = [x for x in shapes if isinstance(x, svg.Rect)]
+            if "<circle" in doc and not any(isinstance(x, svg.Circle) for x in shapes):
+                dis.append({"clause": "SiblingLost", "detail": "%r: the circle after the nested svg is not rendered" % doc})
             if kind == "zero":
                 if rects:
                     dis.append({"clause": "ZeroViewBoxRenders", "detail": "%r: content of a zero-sized viewBox is rendered: %r" % (doc, rects)})
